@@ -198,6 +198,21 @@ def run(ctx):
                   ("frag-3SGB-E0+40", C.fragment("3SGB", "E", 0, 40)),
                   # a chain whose first residue shares its number with the insertion-coded residues that follow it
                   ("frag-3SGB-E-from-48", C.join(C.chain_lines("3SGB", "E", 19, 16) + [C.TER]))]
+    # the program's own hydrogens written back under the old naming convention (HD21 -> 1HD2, HH12 -> 2HH1 ...) and NOT
+    # kept: they are input hydrogens like any others, dropped when reading, and every complement is built afresh
+    from . import c07 as _c07
+    hsrc = C.fragment("3SGB", "E", 0, 40)
+    htext = _c07.with_own_hydrogens(hsrc)
+    if htext:
+        out_ = []
+        for ln in htext.splitlines():
+            if C.is_atom(ln) and ln[76:78].strip() == "H":
+                nm = ln[12:16].strip()
+                if len(nm) >= 3 and nm[-1].isdigit():
+                    nm = nm[-1] + nm[:-1]
+                    ln = ln[:12] + pdbio.fmt_name(nm, "H") + ln[16:]
+            out_.append(ln)
+        structures.append(("frag-3SGB-E0+40+old-style-hydrogens", "\n".join(out_) + "\n"))
     if ctx.thorough():
         structures += [("3SGB", C.test_pdb_text("3SGB")), ("1FTJ-protein", c04.protein_only(C.test_pdb_text("1FTJ-Chain-A"))),
                        ("4DFR", C.test_pdb_text("4DFR"))]
@@ -209,7 +224,9 @@ def run(ctx):
         if rr.exc is not None:
             ctx.violation(f"run:exception:{name}", repr(rr.exc), {"pdb": text})
             continue
-        idx = observe.InputIndex(text)
+        # supplied hydrogens are not part of the structure the complements are declared on (they are dropped when reading)
+        heavy_text = "\n".join(ln for ln in text.splitlines() if not (C.is_atom(ln) and ln[76:78].strip() == "H")) + "\n"
+        idx = observe.InputIndex(heavy_text)
         res_list = idx.residues()
         by_line = {}
         for rr_ in res_list:
@@ -223,7 +240,8 @@ def run(ctx):
             if a.element == "H":
                 continue
             gid = idx.gid(a)
-            hs = [b for b in a.bonded_atoms if b.element == "H" and idx.gid(b) < 0]
+            # default runs drop every supplied hydrogen: all hydrogens found afterwards were built by the program
+            hs = [b for b in a.bonded_atoms if b.element == "H"]
             key = (by_line[gid]["pos"], a.name) if gid in by_line else None
             exp = expected.get(key, -1)
             if not hs and exp < 0:
@@ -243,7 +261,7 @@ def run(ctx):
         ctx.extra.setdefault("protonation_warnings", {})[name] = len(bad_warn)
         # equivariance under lattice rotations (amino-acid structures: a terminal sp3 atom of a hetero group gets a
         # frame-dependent rotamer by design - the exclusion C04's statement spells out)
-        if any(ln.startswith("HETATM") for ln in text.splitlines()):
+        if any(ln.startswith("HETATM") for ln in text.splitlines()) or "old-style-hydrogens" in name:
             continue
         for (p, s) in (allrots if ctx.thorough() else rng.sample(allrots, 3)):
             t = c04.translation_for(text, p, s, ("unit", "halfcell", "zero"))
@@ -260,7 +278,7 @@ def run(ctx):
     from . import c07
     hsets, hsmeta = [], []
     for name, text in structures:
-        if any(ln.startswith("HETATM") for ln in text.splitlines()) and name != "3SGB-subset":
+        if (any(ln.startswith("HETATM") for ln in text.splitlines()) and name != "3SGB-subset") or "old-style-hydrogens" in name:
             continue
         variants = [(name, text, ["-q"], -1)]
         htext = c07.with_own_hydrogens(text)
